@@ -6,7 +6,9 @@ and trace components, specification T or P) of the public entry points `BubblePo
 `DewPoint(z, T=|P=)`, each result checked against the harness' own evaluation of the defining equation
 (modified Raoult's law with the package's gamma / phi / pcf objects and the chemicals' Psat), plus the
 relational clauses of the property (T<->P inverse, bubble/dew ordering, single component, scaling of z,
-permutation of the list) and a history layer on the interned solver objects.
+permutation of the list) and two history layers on the interned solver objects: c08.history (calls on one list with both
+packages; earlier results must stay valid) and c08.intern (the interning caches as explored state: every order of the same
+chemicals and both packages requested within one execution).
 
 One transition = one clause family of one solver (bubble | dew) at one point:
   core   sum(y)=1 / sum(x)=1, residual of the defining equation, single-component shortcut, round trip
@@ -38,6 +40,10 @@ ASSUMPTIONS = [
     'with one seed-rotated k; lists of 4 are permuted by rotations and reversal only.  The ideal package and the thorough tier use the full sets.',
     'a P-specified case is judged only if the harness\' own residual changes sign between the ends of the temperature domain (the bubble/dew temperature lies inside the quantifier)',
     'the defining equation is evaluated with the package\'s own gamma/phi/pcf objects (their correctness is property C16) and Chemical.Psat',
+    'the class-level interning caches (BubblePoint._cached, DewPoint._cached, the activity-coefficient classes\' _cached) are owned by the harness: emptied before every '
+    'execution; reference models and fresh twins are built inside a save/clear/restore bracket.  c08.intern makes the caches explored state: within one execution the same '
+    'chemicals are requested in every order (all permutations of a 2- and a 3-list) and with the ideal and the Dortmund package, every sequence of 2 (thorough: 3) requests; '
+    'c08.history keeps every returned result object and re-checks all of them (bit-identical) after each later call',
     'documented solver rejections (InfeasibleRegion, non-convergence RuntimeError) are counted as rejected, not judged; any other exception type is a violation',
 ]
 TOLERANCES = {
@@ -45,7 +51,7 @@ TOLERANCES = {
     'roundtrip_T_K': 1e-4, 'roundtrip_T_single_component_alt (|Psat(T\')-P|, Chemical.Tsat ytol)': 2e-2, 'roundtrip_P_rel': 1e-6, 'ordering_T_K': 1e-4, 'ordering_P_rel': 1e-6,
     'single_component_Psat_rel': 1e-12, 'single_component_Tsat_K': 1e-9, 'single_component_Psat_of_Tsat_rel (P != 101325)': 1e-5,
     'scale_T_K': 1e-4, 'scale_P_rel': 1e-6, 'scale_fraction_abs': 1e-6, 'perm_T_K': 1e-4, 'perm_P_rel': 1e-6, 'perm_fraction_abs': 1e-6,
-    'history_vs_fresh_rel': 1e-12,
+    'history_vs_fresh_rel': 1e-12, 'earlier_results_after_later_calls': 'bit-identical (T, P, fraction array of the kept result objects)',
 }
 
 FAMILIES = {
@@ -82,6 +88,27 @@ def _load():
             counted._verif_counted = True
             flx.IQ_interpolation = counted
     return _eq
+
+def _caches():
+    """every class-level interning cache a bubble/dew point can reach (process-global state, DESIGN 1.2): owned by the harness"""
+    eq = _load()
+    from thermosteam.equilibrium import activity_coefficients as ac
+    return [eq.BubblePoint._cached, eq.DewPoint._cached, ac.DortmundActivityCoefficients._cached,
+            ac.UNIFACActivityCoefficients._cached, ac.NISTActivityCoefficients._cached]
+
+def clear_caches():
+    for c in _caches(): c.clear()
+
+class isolated:
+    """run a block with EMPTY interning caches and put the explored caches back afterwards (reference evaluations and
+    fresh twins must neither see nor disturb the state under exploration)"""
+    def __enter__(self):
+        self.saved = [(c, dict(c)) for c in _caches()]
+        for c, _ in self.saved: c.clear()
+    def __exit__(self, *exc):
+        for c, d in self.saved:
+            c.clear(); c.update(d)
+        return False
 
 def _thermo(pkg, ids):
     _load()
@@ -148,7 +175,8 @@ class Model:
         self.chems = _chems(ids)
         self.thermo = _thermo(pkg, sorted_ids(ids))
         th = self.thermo
-        self.gamma = th.Gamma(self.chems); self.phi = th.Phi(self.chems); self.pcf = th.PCF(self.chems)
+        with isolated():     # the reference model objects are built for exactly this order, whatever has been interned before
+            self.gamma = th.Gamma(self.chems); self.phi = th.Phi(self.chems); self.pcf = th.PCF(self.chems)
         self.lo, self.hi = domain(self.chems)
 
     def psats(self, T): return np.array([c.Psat(T) for c in self.chems], float)
@@ -214,14 +242,16 @@ def model(pkg, ids):
 
 # ---- calling the library ---------------------------------------------------------------------------------
 
-def solve(m, kind, spec, z, val):
-    """BubblePoint/DewPoint(z, T=|P=) through the public entry point.  Returns (T, P, fractions)."""
+def solve(m, kind, spec, z, val, raw=False):
+    """BubblePoint/DewPoint(z, T=|P=) through the public entry point (the solver object is requested from the class every
+    time, i.e. through its interning cache).  Returns (T, P, fractions) — with raw=True additionally the result object itself."""
     eq = _load()
     cls = eq.BubblePoint if kind == 'bubble' else eq.DewPoint
     try:
         obj = cls(m.chems, m.thermo)
         r = obj(np.array(z, float), **{spec: val})
         frac = np.array(r.y if kind == 'bubble' else r.x, float)
+        if raw: return float(r.T), float(r.P), frac, r
         return float(r.T), float(r.P), frac
     except _exc.InfeasibleRegion as e:
         raise Rejected(f'{kind}:{spec}:InfeasibleRegion', cut=False)
@@ -264,6 +294,7 @@ class Grid(System):
             for i in fam: fx.chemical(i)
 
     def depth(self, tier): return 1
+    def reset_globals(self): clear_caches()      # every execution starts with empty interning caches
 
     def _lists(self, tier):
         ls = lists(tier)
@@ -510,12 +541,62 @@ class Grid(System):
         return repr((a[0], st.m.pkg, len(st.m.ids), st.spec, obs, 'bracketing-fallback' if FALLBACK[0] else 'secant'))
 
 
-# ---- history layer ------------------------------------------------------------------------------------------
+# ---- history layers ------------------------------------------------------------------------------------------
+
+def judge(m, kind, spec, val, z, T, P, f, where=''):
+    """grid oracles for one returned result (normalisation, defining equation / single component) — raises Violation"""
+    who = f'{"BubblePoint" if kind == "bubble" else "DewPoint"}{m.ids}({list(z)}, {spec}={val}) [{m.pkg}]{where}'
+    mt = dict(kind=kind, spec=spec, pkg=m.pkg)
+    given = T if spec == 'T' else P
+    if given != val:
+        raise Violation('specification-not-returned', f'{who}: returned {spec}={given!r}', match=mt)
+    if not (np.all(np.isfinite(f)) and math.isfinite(T) and math.isfinite(P) and np.all(f >= 0) and f.shape == (len(z),)):
+        raise Violation('non-finite', f'{who}: T={T}, P={P}, fractions={f.tolist()}', match=dict(mt, zclass=zclass(z)))
+    if not abs(f.sum() - 1.0) <= 1e-9:
+        raise Violation('fractions-not-normalised', f'{who}: fractions sum to {f.sum()!r}', match=mt, residual=abs(f.sum() - 1))
+    za = np.array(z, float); zn = za / za.sum()
+    if npos(z) == 1:
+        i = int(np.argmax(zn)); c = m.chems[i]
+        unit = np.zeros(len(z)); unit[i] = 1.0
+        ok = np.array_equal(f, unit) and (rel(P, float(c.Psat(T))) <= (1e-12 if spec == 'T' else 2e-2))
+        if not ok:
+            raise Violation('single-component', f'{who}: T={T!r} P={P!r} fractions {f.tolist()} (Psat_{c.ID}(T)={float(c.Psat(T))!r})', match=mt)
+        return
+    with np.errstate(all='ignore'):
+        ref = m.bubble_y(zn, T, P, y=f.copy()) if kind == 'bubble' else m.dew_x(zn, T, P, f)
+        r_sum = abs(ref.sum() - 1.0); r_frac = float(np.max(np.abs(ref - f)))
+    if not (r_sum <= 1e-6 and r_frac <= 1e-6):
+        raise Violation('residual', f'{who}: T={T}, P={P}, returned fractions {f.tolist()}; modified Raoult\'s law gives {ref.tolist()} '
+                        f'(sum {ref.sum()!r})', match=dict(mt, zclass=zclass(z)), residual=max(r_sum, r_frac))
+
+
+def twin(m, kind, spec, z, val):
+    """the same call on freshly constructed objects (empty interning caches), without disturbing the explored caches"""
+    with isolated():
+        return solve(m, kind, spec, z, val)
+
+
+def cache_digest():
+    """the explored interning state: which solver objects exist under which key, what they are (order of their chemicals,
+    model classes) and every array they hold (a per-instance work buffer would show up here)"""
+    eq = _load()
+    out = []
+    for cls in (eq.BubblePoint, eq.DewPoint):
+        for key, o in cls._cached.items():
+            arrays = []
+            for sl in getattr(type(o), '__slots__', ()):
+                v = getattr(o, sl, None)
+                if isinstance(v, np.ndarray): arrays.append((sl, tuple(fx.r12(x) for x in v.ravel())))
+            out.append((cls.__name__, tuple(getattr(o, 'IDs', ())), type(o.gamma).__name__, type(o.phi).__name__, type(o.pcf).__name__,
+                        tuple(getattr(c, 'ID', '?') for c in getattr(o.gamma, 'chemicals', ())), tuple(arrays)))
+    return tuple(sorted(out, key=repr))
+
 
 class History(System):
-    """The solver objects are interned per (chemicals, Gamma, Phi, PCF).  Universe: the bubble and dew objects of one list for the
-    ideal AND the activity-coefficient package (same chemical tuple, different cache keys), constructed in both orders; every call
-    is compared with the result of a freshly constructed object."""
+    """Calls on ONE ordered list through the interned solver objects of the ideal AND the activity-coefficient package (same
+    chemical tuple, different cache keys; nothing / ideal first / Dortmund first constructed at build).  Oracles per call:
+    the grid oracles on the new result, equality with a freshly constructed twin, and **every result returned earlier in
+    the history is still what it was** (same T, P and bit-identical fraction array — the result objects are kept, not copied)."""
     name = 'c08.history'
     nontrivial_per_config = True
     LISTS = [('Water', 'Ethanol', 'Methanol'), ('Hexane', 'Benzene')]
@@ -523,40 +604,35 @@ class History(System):
     SPECS = [('T', 300.0), ('T', 400.0), ('P', 101325.0), ('P', 1e6)]
 
     def warm(self): Grid.warm(self)
-    def depth(self, tier): return 2 if tier == 'quick' else 3
-    def reset_globals(self): self._clear()
-
-    def _clear(self):
-        eq = _load()
-        eq.BubblePoint._cached.clear(); eq.DewPoint._cached.clear()
-        from thermosteam.equilibrium import activity_coefficients as ac
-        ac.DortmundActivityCoefficients._cached.clear()
+    def depth(self, tier): return 2          # every kept result makes a history a distinct state: the full alphabet is paired exhaustively in both tiers
+    def reset_globals(self): clear_caches()
 
     def configs(self, tier, seed):
-        return [(ids, order) for ids in self.LISTS for order in ('ideal-first', 'dortmund-first')]
+        return [(ids, order) for ids in self.LISTS for order in ('lazy', 'ideal-first', 'dortmund-first')]
 
     def build(self, config):
         ids, order = config
         eq = _load()
         st = type('St', (), {})()
         st.ids = ids
-        st.ms = {}
-        pk = ('ideal', 'dortmund') if order == 'ideal-first' else ('dortmund', 'ideal')
+        st.ms = {p: model(p, ids) for p in ('ideal', 'dortmund')}
+        pk = {'lazy': (), 'ideal-first': ('ideal', 'dortmund'), 'dortmund-first': ('dortmund', 'ideal')}[order]
         st.objs = {}
         for p in pk:
-            m = model(p, ids)
-            st.ms[p] = m
+            m = st.ms[p]
             st.objs[(p, 'bubble')] = eq.BubblePoint(m.chems, m.thermo)
             st.objs[(p, 'dew')] = eq.DewPoint(m.chems, m.thermo)
         st.calls = ()
+        st.held = []          # (action, result object, T, P, snapshot of the fraction array)
         st.tag = None
         return st
 
     def canon(self, st):
-        g = st.objs[('dortmund', 'bubble')].gamma
-        gp = getattr(g, '_group_psis', None)
-        ident = tuple(sorted((k, type(o.gamma).__name__) for k, o in st.objs.items()))
-        return (st.ids, ident, None if gp is None else tuple(fx.r12(v) for v in np.asarray(gp).ravel()), st.calls[-1:] )
+        from thermosteam.equilibrium import activity_coefficients as ac
+        gps = tuple(sorted((tuple(c.ID for c in k), tuple(fx.r12(v) for v in np.asarray(g._group_psis).ravel()))
+                           for k, g in ac.DortmundActivityCoefficients._cached.items() if isinstance(k, tuple)))
+        held = tuple((a, fx.r12(T), fx.r12(P), tuple(fx.r12(v) for v in snap)) for a, r, T, P, snap in st.held)
+        return (st.ids, cache_digest(), gps, held)
 
     def invariants(self, st):
         eq = _load()
@@ -576,37 +652,104 @@ class History(System):
         return [(p, kind, spec, val, zi) for p in ('ideal', 'dortmund') for kind in ('bubble', 'dew') for (spec, val) in self.SPECS
                 for zi in range(len(self.ZS[n]))]
 
+    def _held_check(self, st):
+        for a, r, T, P, snap in st.held:
+            kind = a[1]
+            arr = np.asarray(r.y if kind == 'bubble' else r.x, float)
+            same = float(r.T) == T and float(r.P) == P and arr.shape == snap.shape and arr.tobytes() == snap.tobytes()
+            if not same:
+                raise Violation('result-overwritten', f'{kind}{st.ids} [{a[0]}]: the result returned by {a} was T={T!r} P={P!r} {snap.tolist()}; after the later call '
+                                f'{st.calls[-1]} the same result object reads T={float(r.T)!r} P={float(r.P)!r} {arr.tolist()}', match=dict(kind=kind, pkg=a[0]))
+
     def step(self, st, a):
         p, kind, spec, val, zi = a
-        eq = _load()
         m = st.ms[p]
         z = self.ZS[len(st.ids)][zi]
-        T, P, f = solve(m, kind, spec, z, val)
+        T, P, f, r = solve(m, kind, spec, z, val, raw=True)
         st.calls = st.calls + (a,)
-        # fresh twin: drop every interned object, solve, restore
-        saved = (dict(eq.BubblePoint._cached), dict(eq.DewPoint._cached))
-        from thermosteam.equilibrium import activity_coefficients as ac
-        saved_g = dict(ac.DortmundActivityCoefficients._cached)
-        try:
-            self._clear()
-            T2, P2, f2 = solve(m, kind, spec, z, val)
-        finally:
-            self._clear()
-            eq.BubblePoint._cached.update(saved[0]); eq.DewPoint._cached.update(saved[1])
-            ac.DortmundActivityCoefficients._cached.update(saved_g)
         st.tag = 'multi' if npos(z) > 1 else 'single'
+        self._held_check(st)                       # earlier results first: they were right when they were returned
+        st.held.append((a, r, T, P, f.copy()))
+        judge(m, kind, spec, val, z, T, P, f, where=f' after {list(st.calls[:-1])}')
+        T2, P2, f2 = twin(m, kind, spec, z, val)
+        self._held_check(st)
         ok = rel(T, T2) <= 1e-12 and rel(P, P2) <= 1e-12 and f.shape == f2.shape and np.allclose(f, f2, rtol=1e-12, atol=1e-15)
         if not ok:
             raise Violation('history-dependent', f'{kind}{st.ids}({list(z)}, {spec}={val}) [{p}] after {list(st.calls[:-1])}: T={T!r} P={P!r} {f.tolist()}; '
                             f'fresh object: T={T2!r} P={P2!r} {f2.tolist()}', match=dict(kind=kind, spec=spec, pkg=p))
         return ('same', kind, spec, zclass(z))
 
+    def nontrivial(self, st, a, obs): return st.tag == 'multi' and len(st.held) >= 2
+    def outcome(self, st, a, obs): return repr((a[0], obs, min(len(st.held), 3)))
+
+
+class HistoryDeep(History):
+    """thorough only: all triples of calls over a reduced alphabet (2 specifications x 2 compositions x both packages x both solvers)"""
+    name = 'c08.history.deep'
+    ZS = {3: [(0.5, 0.25, 0.25), (0.0, 0.75, 0.25)], 2: [(0.25, 0.75), (0.75, 0.25)]}
+    SPECS = [('T', 300.0), ('P', 1e6)]
+    def depth(self, tier): return 3
+    def configs(self, tier, seed):
+        return History.configs(self, tier, seed) if tier == 'thorough' else []     # its depth-2 prefix is a subset of c08.history
+
+
+class Intern(System):
+    """The interning caches as explored state: within ONE execution (caches emptied at build) the same chemicals are requested in
+    every order and with both packages, in every sequence up to the depth bound; every call is judged with the grid oracles for the
+    order and package that was REQUESTED and compared with a freshly constructed twin."""
+    name = 'c08.intern'
+    nontrivial_per_config = True
+    LISTS = [('Water', 'Ethanol', 'Methanol'), ('Hexane', 'Benzene')]
+    # asymmetric compositions (in the base order), one with a zero component
+    POINTS = {3: [('T', 350.0, (0.5, 0.25, 0.25)), ('P', 101325.0, (0.0, 0.75, 0.25))], 2: [('T', 350.0, (0.25, 0.75)), ('P', 101325.0, (0.75, 0.25))]}
+
+    def warm(self): Grid.warm(self)
+    def depth(self, tier): return 2 if tier == 'quick' else 3
+    def reset_globals(self): clear_caches()
+    def configs(self, tier, seed): return [(ids,) for ids in self.LISTS]
+
+    def build(self, config):
+        st = type('St', (), {})()
+        st.ids = config[0]
+        st.perms = list(itertools.permutations(range(len(st.ids))))
+        st.calls = ()
+        st.tag = None
+        return st
+
+    def canon(self, st):
+        return (st.ids, cache_digest())
+
+    def actions(self, st):
+        return [(p, pi, kind, si) for p in ('ideal', 'dortmund') for pi in range(len(st.perms)) for kind in ('bubble', 'dew')
+                for si in range(len(self.POINTS[len(st.ids)]))]
+
+    def step(self, st, a):
+        p, pi, kind, si = a
+        perm = st.perms[pi]
+        ids = tuple(st.ids[i] for i in perm)
+        spec, val, zb = self.POINTS[len(st.ids)][si]
+        z = tuple(zb[i] for i in perm)
+        m = model(p, ids)
+        T, P, f = solve(m, kind, spec, z, val)
+        st.calls = st.calls + (a,)
+        st.tag = 'multi' if len(st.calls) >= 2 else 'first'
+        where = f' requested after {[ (c[0], tuple(st.ids[i] for i in st.perms[c[1]]), c[2]) for c in st.calls[:-1]]}'
+        judge(m, kind, spec, val, z, T, P, f, where=where)
+        T2, P2, f2 = twin(m, kind, spec, z, val)
+        ok = rel(T, T2) <= 1e-12 and rel(P, P2) <= 1e-12 and f.shape == f2.shape and np.allclose(f, f2, rtol=1e-12, atol=1e-15)
+        if not ok:
+            raise Violation('history-dependent', f'{kind}{ids}({list(z)}, {spec}={val}) [{p}]{where}: T={T!r} P={P!r} {f.tolist()}; '
+                            f'fresh object: T={T2!r} P={P2!r} {f2.tolist()}', match=dict(kind=kind, spec=spec, pkg=p))
+        return ('same', kind, spec, p, 'permuted' if pi else 'base')
+
     def nontrivial(self, st, a, obs): return st.tag == 'multi'
-    def outcome(self, st, a, obs): return repr((a[0], obs))
+    def outcome(self, st, a, obs): return repr(obs)
 
 
 SYSTEMS = [
     History(),
+    HistoryDeep(),
+    Intern(),
     Grid('c08.grid.ideal', ('ideal',), full_in_quick=True),
     Grid('c08.grid.gamma', ('dortmund',)),
 ]
